@@ -99,11 +99,11 @@ def _check(case):
         try:
             if is_async:
                 async def go():
-                    am = p.map_async(inputs, run_folder=run_folder, executor=executor, storage=storage)
+                    am = p.map_async(inputs, run_folder=run_folder, executor=executor, storage=storage, **progs.map_kwargs(prog))
                     return await am.task
                 res = asyncio.run(go())
             else:
-                res = p.map(inputs, run_folder=run_folder, parallel=True, executor=executor, storage=storage)
+                res = p.map(inputs, run_folder=run_folder, parallel=True, executor=executor, storage=storage, **progs.map_kwargs(prog))
         except Exception as e:  # noqa: BLE001
             return [f"raised-{type(e).__name__}: {str(e)[:160]}"]
         bad = []
